@@ -155,6 +155,8 @@ ENTRIES = {
     # no documented closed form: the returned number is still a bound (C09)
     "averaged_projections": E(LD, "wc_averaged_projections", "upper", prod(n=[1, 2, 5])),
     "alternate_projections": E(LD, "wc_alternate_projections", "upper", prod(n=[1, 2, 5])),
+    "three_operator_splitting": E(M, "wc_three_operator_splitting", "upper",
+                                  [dict(L=1.0, mu=0.1, beta=b, alpha=a, theta=t) for b in (1.0, 0.1) for a in (0.9, 1.3) for t in (0.9, 1.5)]),
 }
 
 
